@@ -55,7 +55,7 @@ func c09GenOps(t *rapid.T) []c09Op {
 	ops := []c09Op{}
 	for i := 0; i < n; i++ {
 		o := c09Op{Repo: rapid.SampledFrom(c09Repos).Draw(t, "repo")}
-		o.Kind = rapid.SampledFrom([]string{"blob", "image", "image", "image", "artifact", "artifact", "index", "deleteTag", "deleteManifest", "deleteBlob", "collect"}).Draw(t, "kind")
+		o.Kind = rapid.SampledFrom([]string{"blob", "image", "image", "image", "artifact", "artifact", "index", "retag", "retag", "deleteTag", "deleteManifest", "deleteBlob", "collect"}).Draw(t, "kind")
 		o.Content = rapid.IntRange(0, len(c09Contents)-1).Draw(t, "content")
 		o.Proto = rapid.IntRange(0, 2).Draw(t, "proto")
 		o.Salt = rapid.IntRange(0, 2).Draw(t, "salt")
@@ -254,6 +254,22 @@ func (r *c09Run) exec(ops []c09Op) {
 			}
 			raw, mm := buildIndex(mtIndex, kids, nil, "", map[string]string{"salt": fmt.Sprint(o.Salt)})
 			r.putManifest(o.Repo, raw, mm, o.Tag)
+		case "retag":
+			// an existing manifest gets (another) tag: an in-place update of its index entry, or a tag move
+			l := r.order[o.Repo]
+			if len(l) == 0 {
+				continue
+			}
+			d := l[o.Target%len(l)]
+			m := mr.mans[d]
+			if m == nil {
+				continue
+			}
+			tg := o.Tag
+			if tg == "" {
+				tg = c09Tags[o.Salt%len(c09Tags)]
+			}
+			r.putManifest(o.Repo, m.raw, m, tg)
 		case "deleteTag":
 			tg := o.Tag
 			if tg == "" {
@@ -441,11 +457,11 @@ func c09Property(t *rapid.T, st *Stats) {
 	nMut := vfs.MutCount()
 	log0 := vfs.Log()
 	vfs.Reset(root0, false)
-	_ = run0.srv.Close()
 	fail := func(key string, trace []string, f string, a ...any) {
 		Fail(t, st, key, fmt.Sprintf(f, a...), append(append([]string{}, opsDesc...), trace...), nil)
 	}
 	if run0.failStat != "" {
+		_ = run0.srv.Close()
 		fail("fault-free-run", run0.trace, "the fault-free run already misbehaves: %s", run0.failStat)
 	}
 	universe := map[string]bool{}
@@ -453,6 +469,37 @@ func c09Property(t *rapid.T, st *Stats) {
 		for k := range s {
 			universe[k] = true
 		}
+	}
+	// the last crash point of every history: the process dies right after the final acknowledgement (no Close)
+	{
+		rz := filepath.Join(tmp, "after-last")
+		copyTree(root0, rz)
+		_ = run0.srv.Close()
+		vfs.Reset(rz, false)
+		conf := baseConf(config.StoreDir, rz)
+		conf.Storage.GC.Untagged, conf.Storage.GC.GracePeriod, conf.Storage.GC.EmptyRepo = bp(true), -1, bp(emptyRepo)
+		sz := olareg.New(conf)
+		obs, problem := c09Observe(sz, universe)
+		_ = sz.Close()
+		trace := append(append([]string{}, run0.trace...), "CRASH right after the last acknowledgement (server dropped without Close)")
+		if problem != "" {
+			fail("restart-read-fails", trace, "after the last request, a crash and a restart: %s", problem)
+		}
+		final := run0.snaps[len(run0.snaps)-1]
+		for key := range universe {
+			p := strings.Split(key, "|")
+			if p[1] == "man" && run0.repos[p[0]].fuzzy[p[2]] {
+				continue
+			}
+			if p[1] == "blob" && final[key] == "" {
+				continue // leftovers of deleted or collected items are invisible through the index
+			}
+			if obs[key] != final[key] {
+				fail("acknowledged-state-lost", trace, "%s: every request was acknowledged and the state was %q; after a crash right behind the last acknowledgement and a restart it is %q", key, final[key], obs[key])
+			}
+		}
+		st.Add("crash-after-last-acknowledgement", 1)
+		_ = os.RemoveAll(rz)
 	}
 	// which request owns which mutating call (for the non-triviality rule)
 	interesting := map[int]bool{}
@@ -547,13 +594,20 @@ func c09Property(t *rapid.T, st *Stats) {
 					fail("layout-after-crash", trace, "after the crash the directory is not a loadable layout: %s", strings.Join(real, "; "))
 				}
 			}
-			// every tag of every index.json resolves to an intact manifest and pulls completely
+			// every tag of every index.json resolves to an intact manifest and pulls completely (what the interrupted
+			// request itself was deleting may already be gone)
+			inFlight := map[string]bool{}
+			for key := range universe {
+				if p := strings.Split(key, "|"); p[1] == "blob" && before[key] != after[key] {
+					inFlight[p[0]+"|"+p[2]] = true
+				}
+			}
 			for key, d := range obs {
 				p := strings.Split(key, "|")
 				if p[1] != "tag" {
 					continue
 				}
-				if msg := c09Pull(sa, run.repos[p[0]], p[0], d); msg != "" {
+				if msg := c09Pull(sa, run.repos[p[0]], p[0], d, inFlight); msg != "" {
 					fail("tag-points-at-missing-content", trace, "after the crash tag %s/%s -> %s: %s", p[0], p[2], short(d), msg)
 				}
 			}
@@ -663,8 +717,8 @@ func c09Property(t *rapid.T, st *Stats) {
 }
 
 // c09Pull fetches a manifest and everything it references; "" = complete.
-func c09Pull(h *olareg.Server, mr *mrepo, rn, d string) string {
-	if _, ok := mr.blobs[d]; !ok {
+func c09Pull(h *olareg.Server, mr *mrepo, rn, d string, inFlight map[string]bool) string {
+	if _, ok := mr.blobs[d]; !ok || inFlight[rn+"|"+d] {
 		return "" // deleted through the API (or never acknowledged): not part of the claim
 	}
 	g := doReq(h, "GET", "/v2/"+rn+"/manifests/"+d, nil, hdr("Accept", acceptAll))
@@ -683,7 +737,7 @@ func c09Pull(h *olareg.Server, mr *mrepo, rn, d string) string {
 		return ""
 	}
 	for _, c := range b.Manifests {
-		if msg := c09Pull(h, mr, rn, c.Digest); msg != "" {
+		if msg := c09Pull(h, mr, rn, c.Digest, inFlight); msg != "" {
 			return msg
 		}
 	}
@@ -695,7 +749,7 @@ func c09Pull(h *olareg.Server, mr *mrepo, rn, d string) string {
 		refs = append(refs, l.Digest)
 	}
 	for _, x := range refs {
-		if _, ok := mr.blobs[x]; !ok {
+		if _, ok := mr.blobs[x]; !ok || inFlight[rn+"|"+x] {
 			continue
 		}
 		br := doReq(h, "GET", "/v2/"+rn+"/blobs/"+x, nil, nil)
